@@ -130,9 +130,13 @@ def aimed_scenario(draw, G):
         for rn, rdef in s.cells.items():
             if any(n[0] == "attr" and n[2] == name for n in walk(rdef.expr)):
                 out.append(["eval", gen._jsid(tuple(s.path)), rn, [draw(st.integers(0, 1)) for _ in rdef.params], None, "()"])
-    k = draw(st.integers(0, 4))
+    k = draw(st.integers(0, 5))
     new = draw(st.sampled_from(["c%d" % i for i in range(FEAT.max_rank + 1)]))
-    if k <= 1 and new != name and G.find_cells(sp, new) is None:
+    if k == 5:
+        # the same key is assigned an equal value of another type (45 -> 45.0): a different answer downstream
+        last = out[0]
+        out.append(["set_value", p, name, last[3], float(last[4])])
+    elif k <= 1 and new != name and G.find_cells(sp, new) is None:
         out.append(["rename_cells", p, name, new])
     elif k == 2:
         out.append(["del_cells", p, name])
@@ -314,7 +318,7 @@ def run_case(case, assist=False):
             return out.fail("structure", "after %r the live model and the twin expose different cells: %r vs %r" % (
                 op, [q for q, _ in got][:8], [q for q, _ in want][:8]), i, edit=op[0])
         for (q, g), (_, w) in zip(got, want):
-            if g != w:
+            if g != w or repr(g) != repr(w):        # (1, 1.0 and True are different answers)
                 return out.fail("stale-value", "after %r: %s.%s%r -> live %r, model with only the edits %r" % (
                     op, ".".join(map(str, q[0])), q[1], q[2], g, w), i, edit=op[0], query=[list(map(str, q[0])), q[1]])
         # did this edit require invalidation?
